@@ -637,7 +637,7 @@ ADDENDA9 = {
     'C07': ' Round 9: pending line before EOF in the line editor.',
     'C08': ' Round 9: TUN header accounting; replenishment test for every chunk; read() after resume (shared C07.R7).',
     'C09': ' Round 9: factory before channel in client listeners; global request queue always serviced.',
-    'C10': ' Round 9: EC parameter arithmetic guarded; readuntil consumes what it reports; argument parsers cannot exit the process.',
+    'C10': ' Round 9: EC parameter arithmetic guarded; readuntil consumes what it reports; argument parsers cannot exit the process; terminal sizes clamped; RSA primes tested before use.',
     'C11': ' Round 9: time limit re-armed at completion; KEXINIT before the kex handler starts.',
     'C12': ' Round 9: READ reply length checked; any awaitable awaited; success only for FX_OK.',
     'C13': ' Round 9: SCP through SFTPServerFS.',
